@@ -159,7 +159,10 @@ impl<T: SwiftMessageBody> SwiftMessage<T> {
         // Block 3: User Header (if present)
         if let Some(ref user_header) = self.user_header {
             let block3 = &user_header.to_string();
-            swift_message.push_str(&format!("{{3:{block3}}}\n"));
+            // A header without any serialisable tag gives no block at all (as publishing its JSON does)
+            if !block3.is_empty() {
+                swift_message.push_str(&format!("{{3:{block3}}}\n"));
+            }
         }
 
         // Block 4: Text Block with fields
@@ -183,7 +186,9 @@ impl<T: SwiftMessageBody> SwiftMessage<T> {
         // Block 5: Trailer (if present)
         if let Some(ref trailer) = self.trailer {
             let block5 = &trailer.to_string();
-            swift_message.push_str(&format!("{{5:{block5}}}\n"));
+            if !block5.is_empty() {
+                swift_message.push_str(&format!("{{5:{block5}}}\n"));
+            }
         }
 
         swift_message
